@@ -127,6 +127,16 @@ def c18_codes(_):
                       ('numpy float64', np.float64(3.0)), ('complex', 1 + 0j), ('float nan', float('nan'))):
         k, v = _kind(wmo.okta2code, val)
         ni.append({'what': what, 'k': k if k in ('ok', 'refuse') else 'other'})
+    # equal-valued integers converted before (positionally, by keyword, as bool) must not make a non-integer acceptable
+    for i in (0, 1, 2, 8):
+        _kind(lambda v: wmo.okta2code(val=v), i)
+    _kind(wmo.okta2code, True)
+    _kind(wmo.okta2code, False)
+    for what, call in (('kw float 2.0 after kw int 2', lambda: wmo.okta2code(val=2.0)), ('float 1.0 after True', lambda: wmo.okta2code(1.0)),
+                       ('numpy float64 0 after False', lambda: wmo.okta2code(np.float64(0))), ('kw complex 8 after kw int 8', lambda: wmo.okta2code(val=8 + 0j)),
+                       ('kw float 0.0 after kw int 0', lambda: wmo.okta2code(val=0.0))):
+        k, v = _kind(lambda _: call(), None)
+        ni.append({'what': what, 'k': k if k in ('ok', 'refuse') else 'other'})
     pr, pa = [], []
     for what, val in (('-1', -1), ('-0.001', -0.001), ('100.001', 100.001), ('1000', 1000), ('array with -1', np.array([50., -1.])),
                       ('array with 101', np.array([0., 101.])), ('-1e-12', -1e-12), ('100+1e-9', 100 + 1e-9)):
